@@ -47,6 +47,9 @@ def base_cfg(rng, idx, entry=None, T=None, s=None, n=None, tuned=False, test=Fal
     d["cstep"] = rng.choice([0, 0, 1, 7])
     d["cmod"] = rng.choice([1, 2, 3, 5])
     d["gcost"] = rng.choice([0, 1, 50])
+    if rng.random() < 0.05:
+        # the counter stands just below 2^63 when the run begins: readings on both sides of the top bit within one run
+        d["base"] = 2 ** 63 - rng.randrange(1, 20000)
     d["dicost"] = rng.choice([0, 2, 30])
     d["docost"] = rng.choice([0, 2, 30])
     if entry >= 2 and rng.random() < 0.6:
@@ -70,7 +73,9 @@ def base_cfg(rng, idx, entry=None, T=None, s=None, n=None, tuned=False, test=Fal
     return d
 
 
-ALLOC_SCRIPTS = ["", "a64,d", "a64", "a8,a16,a32,d,d,d", "z128,g256,s64,d", "a100,g100,d", "a64,g4096,s1,s0,d", "a16,a16,d,a16,a16", "a1,g2,g3,g4,s1,d"]
+ALLOC_SCRIPTS = ["", "a64,d", "a64", "a8,a16,a32,d,d,d", "z128,g256,s64,d", "a100,g100,d", "a64,g4096,s1,s0,d", "a16,a16,d,a16,a16", "a1,g2,g3,g4,s1,d",
+                 # a peak reached by a plain allocation and left by a shrinking reallocation (with_capacity + shrink_to_fit)
+                 "a4096,s64", "a4096,s64,d", "a100,z4000,s8,d,d", "z512,s1,a8,d,d"]
 
 
 def add_allocs(d, rng, heavy=True):
@@ -224,6 +229,30 @@ def gen_c02(tier, seed):
             d["q"] = rng.choice([100, 10 ** 4, 10 ** 6])
             d["cbase"] = rng.choice([0, 1, 3])
             d["cstep"] = 0
+        out.append(line(d))
+    out += gen_late_alloc(tier, seed, N)
+    return out
+
+
+def gen_late_alloc(tier, seed, first_id=0):
+    """Threads whose first 8-20 rounds make no allocator request at all and whose later rounds do (a cache that starts to fill late,
+    amortised growth): every later sample still carries its own record. Explicit sample sizes (many rounds) and tuned runs."""
+    rng = random.Random(seed * 6011 + 22)
+    out = []
+    for k in range(12 if tier == "quick" else 200):
+        T = rng.choice([1, 1, 2, 3])
+        entry = rng.choice([0, 0, 2, 4])
+        d = {"id": first_id + k, "entry": entry, "T": T, "seed": rng.randrange(1 << 30), "cbase": rng.choice([10, 100]), "fplog": 0,
+             "oshape": "z", "caops": rng.choice(["a64,d", "a64", "a8,a16,d,d", "a4096,s64,d"]), "cafree": 1, "cavar": rng.choice([0, 3]), "_novos": k % 3 != 0}
+        if entry >= 2:
+            d["ishape"] = "s"
+        if k % 4 == 3:
+            # tuned: 1, 2, 4, ... 128 iterations are eight quiet rounds (255 calls); allocation starts somewhere after them
+            d.update({"n": rng.choice([2, 3]) * T, "q": 1, "delta": 1, "cbase": 1, "freq": 10 ** 9, "cafrom": rng.choice([255, 300, 511, 600])})
+        else:
+            s_ = rng.choice([1, 1, 2])
+            quiet = rng.choice([8, 9, 10, 13, 20])
+            d.update({"s": s_, "n": T * (quiet + rng.choice([1, 3, 6])), "cafrom": s_ * quiet + rng.randrange(s_)})
         out.append(line(d))
     return out
 
@@ -610,6 +639,20 @@ def gen_c08_panic(tier, seed):
         d["panic"] = "%d,%d,%d" % (phase, thread, index)
         out.append(line(d))
         idx += 1
+    # the same in test mode (one call per thread, nothing reported): a panic still reaches the caller, and nothing hangs
+    tcombos = [(T, thread, phase) for T in (2, 3) for thread in list(range(T)) + [255] for phase in (0, 1, 2, 3, 4)]
+    rng.shuffle(tcombos)
+    for (T, thread, phase) in (tcombos[:16] if tier == "quick" else tcombos * 2):
+        ishape = rng.choice(["z", "zd", "s", "sd", "u"])
+        oshape = rng.choice(["z", "zd", "s", "sd"])
+        if phase == 3 and oshape in ("z", "s"):
+            oshape = rng.choice(["zd", "sd"])
+        if phase == 4 and ishape in ("z", "s", "u"):
+            ishape = rng.choice(["zd", "sd"])
+        d = {"id": idx, "entry": rng.choice([2, 4]), "T": T, "s": rng.choice([1, 2]), "n": T * 3, "cbase": 10, "seed": rng.randrange(1 << 20), "fplog": 0,
+             "ishape": ishape, "oshape": oshape, "ic": "0", "test": 1, "panic": "%d,%d,0" % (phase, thread), "_novos": True}
+        out.append(line(d))
+        idx += 1
     return out
 
 
@@ -696,6 +739,12 @@ def gen_c11_e2e(tier, seed):
              "cmod": rng.choice([1, 3, 7]), "seed": rng.randrange(1 << 20), "fplog": 0, "oshape": "z", "_novos": True}
         if d["entry"] == 2:
             d["ishape"] = "s"
+        if idx % 5 in (1, 3) and rng.random() < 0.7:
+            # where the counter stands must not matter: runs that begin just below 2^63 (so that readings fall on both sides of the
+            # top bit, also inside one sample), at 2^63, at 2^62 and high in the upper half
+            span = max(2, d["n"] * d["s"] * d["cbase"])
+            d["base"] = rng.choice([2 ** 63 - rng.randrange(1, span), 2 ** 63 - rng.randrange(1, span), 2 ** 63 - max(1, d["cbase"] // 2), 2 ** 63,
+                                    2 ** 62 - 5, 2 ** 63 + 2 ** 62, 2 ** 64 - 2 ** 46])
         if idx % 5 == 4:
             # the OS-timer arm on the scripted source (1 tick = 1 ns), with spans up to and beyond 2^64 ps
             d.update({"tsc": 0, "vos": 1, "T": 1, "s": 1, "cbase": rng.choice([1000, 2 ** 40, 2 ** 54, 2 ** 55, 2 ** 60]), "cstep": rng.choice([0, 1]), "n": rng.choice([2, 3])})
